@@ -434,6 +434,10 @@ CHECKS["C18"] = {
          "params": {"quick": [{}], "thorough": [{}]}, "cover": ["after-close"]},
         {"name": "dbpath", "pkg": "internal/db_impl/sqlite3", "pkgname": "sqlite3", "entry": "VerifC18DBPath", "files": ["zz_verif_c18.go"],
          "params": {"quick": grid(n=[1, 2]), "thorough": grid(n=[3])}, "cover": ["uri-parsed"]},
+        {"name": "wirelines", "pkg": "internal/session", "pkgname": "session", "entry": "VerifC11WireLines", "files": ["zz_verif_c18.go", "zz_verif_c18b.go", "zz_verif_c11wire.go"],
+         "with": ["state_export", "backend_export", "verifdb"], "goroutines": True, "concrete_time": True, "replay_timeout_s": 60,
+         "params": {"quick": grid(m=[1, 2]), "thorough": grid(m=[3, 4])},
+         "cover": ["lines-served"]},
     ],
     "stubs": ["connector.Connector stub (Authorize returns a chosen answer)", "time.AfterFunc -> recorded, never fired", "sync.WaitGroup / Mutex -> single-goroutine model (Wait on a non-zero group = BLOCKED)", "profiling / observability / reporter / logrus -> no-op"],
     "outside": ["'each user has its own database, store and connector' is object wiring, not a computation (the login harness checks that the session is bound to the matching user's object)", "real time (that the jail lasts exactly loginJailTime)", "non-ASCII credential bytes"],
